@@ -90,6 +90,9 @@ def inv_action(S_, a):
         Implies(h.dhas(cfg, "fire_period"), cfg_value_ok(h.dget(cfg, "fire_period"))),
         Or(Val.is_VNone(cond), Val.is_VStr(cond)),
         Implies(h.dhas(cfg, "frame_type"), Val.is_VStr(h.dget(cfg, "frame_type"))),
+        Implies(h.dhas(cfg, "watches"), And(S_.pre(h.dget(cfg, "watches"), "list"), h.llen(h.dget(cfg, "watches")) >= 0,
+                                            S_.elems(h.dget(cfg, "watches"), STR))),
+        Implies(h.dhas(cfg, "log_msg"), Or(Val.is_VNone(h.dget(cfg, "log_msg")), Val.is_VStr(h.dget(cfg, "log_msg")))),
         Implies(h.dhas(cfg, "stage"), Val.is_VStr(h.dget(cfg, "stage"))),
         *[Implies(h.dhas(cfg, k), And(Val.is_VInt(h.dget(cfg, k)), iv(h.dget(cfg, k)) >= 0)) for k in
           ("MAX_STRING_LENGTH", "MAX_COLLECTION_SIZE", "MAX_VARIABLES", "MAX_VAR_DEPTH", "MAX_TP_PROCESS_TIME")],
